@@ -61,7 +61,7 @@ Ops(s) ==
   \cup {[op |-> o, k |-> 2, oshape |-> os] : o \in {"mul_t1", "div_t1"}, os \in {<<1>>, <<1, 1>>}}   \* one-element tensors that are NOT scalars
   \cup {[op |-> "div_tensor", aux |-> a] : a \in {"same", "plain", "scaled_self"}}
   \cup {[op |-> "add_tensor", aux |-> a] : a \in {"same", "scaled_self"}}
-  \cup {[op |-> o] : o \in {"neg", "relu", "clone", "detach", "abs", "add1", "sum", "gelu", "contiguous"}}
+  \cup {[op |-> o] : o \in {"neg", "relu", "clone", "detach", "abs", "add1", "sum", "gelu", "contiguous", "roundtrip"}}
   \cup {[op |-> "softmax", dim |-> Rank(s)]}
   \cup {[op |-> "where", aux |-> a] : a \in {"plain", "same"}}
   \cup {[op |-> "lt", aux |-> a] : a \in {"same", "scale2", "otherq", "plain", "scaled_self"}}
@@ -109,7 +109,7 @@ QSem(c, o) ==
       ELSE IF o.op = "stack" /\ o.aux # "plain" /\ Dev_C05_StackFallback THEN Raise("TypeError")
       ELSE Plain(c, fs))
   ELSE IF c.kind = "QBits" THEN
-     (IF o.op \in {"detach", "contiguous", "clone"} THEN c   \* contiguous() of a contiguous tensor returns self; clone keeps the class
+     (IF o.op \in {"detach", "contiguous", "clone", "roundtrip"} THEN c   \* contiguous() of a contiguous tensor returns self; clone keeps the class
       ELSE IF o.op = "copy_" THEN c                           \* falls back on a temporary: the destination keeps its values (known finding)
       ELSE IF o.op = "to" THEN (IF o.dtype # c.dtype THEN RaiseW("ValueError", "refusal") ELSE c)
       ELSE IF o.op = "stack" /\ Dev_C05_StackFallback THEN Plain(c, fs)
@@ -132,7 +132,7 @@ QSem(c, o) ==
     [] o.op \in {"mul", "div", "mul_t", "div_t", "rmul"} -> IF o.k > 0 THEN QB(c, c.axis, fs, c.pshape) ELSE Plain(c, fs)    \* only positive scalars are folded into the scale
     [] o.op \in {"div_tensor", "add_tensor", "mul_t1", "div_t1"} -> Plain(c, fs)
     [] o.op \in {"neg", "relu"} -> IF IntQ(c) THEN QB(c, c.axis, fs, c.pshape) ELSE Plain(c, fs)
-    [] o.op \in {"clone", "detach"} -> c
+    [] o.op \in {"clone", "detach", "roundtrip"} -> c        \* roundtrip: save_to_state_dict then load_from_state_dict
     [] o.op = "softmax" -> QB(c, "none", fs, fs)
     [] o.op = "where" ->
          IF o.aux = "same" THEN (IF Dev_C05_WhereOther THEN Raise("NotImplementedError") ELSE Plain(c, fs))
